@@ -994,6 +994,69 @@ theorem WFTL_relabelL (par own : Option Nat) (bs : List DN) (h : WFTL bs) (n : N
     exact ⟨WFT_relabel par own b h.1 n, WFTL_relabelL par own bs h.2 _⟩
 end
 
+/-! #### tag equality of a rebuilt store -/
+
+namespace Attrs
+
+theorem styEq_refl (m : List (Str × Str)) : styEq m m = true := by
+  unfold styEq
+  simp only [Bool.and_eq_true, List.all_eq_true, beq_self_eq_true, implies_true, and_true, and_self]
+  intro k hk
+  simpa using hk
+
+theorem GVal.eq_refl (g : GVal) : g.eq g = true := by
+  cases g <;> simp [GVal.eq, styEq_refl]
+
+theorem dget_append {α : Type} (k : Str) (d1 d2 : List (Str × α)) :
+    dget k (d1 ++ d2) = match dget k d1 with | some v => some v | none => dget k d2 := by
+  induction d1 with
+  | nil => rfl
+  | cons q r ih =>
+    obtain ⟨k2, v2⟩ := q
+    simp only [List.cons_append, dget]
+    split
+    · rfl
+    · exact ih
+
+theorem dget_filter_eq_other {α : Type} (k k' : Str) (d : List (Str × α)) (hne : k' ≠ k) :
+    dget k' (d.filter (fun p => p.1 == k)) = none := by
+  apply dget_none_of_not_mem
+  intro hm
+  obtain ⟨p, hp, hk⟩ := List.mem_map.mp hm
+  simp at hp
+  exact hne (hk ▸ hp.2)
+
+/-- moving the `class` entry to the end changes no lookup -/
+theorem dget_partition (k : Str) (d : List (Str × DVal)) (hn : (dkeys d).Nodup) :
+    dget k (d.filter (fun p => p.1 != sClass) ++ d.filter (fun p => p.1 == sClass)) = dget k d := by
+  rw [dget_append]
+  by_cases e : k = sClass
+  · subst e
+    have h1 : dget sClass (d.filter (fun p => p.1 != sClass)) = none := by
+      apply dget_none_of_not_mem
+      intro hm
+      obtain ⟨p, hp, hk⟩ := List.mem_map.mp hm
+      simp at hp
+      exact hp.2 hk
+    rw [h1, filter_key sClass d hn]
+    cases h : dget sClass d <;> simp [dget]
+  · rw [dget_filter_ne _ _ _ e, dget_filter_eq_other _ _ _ e]
+    cases dget k d <;> rfl
+
+theorem dget_handle_fresh (a : Attrs) (h : WF a) (k : Str) : dget k (handle (fresh a)).dict = dget k (handle a).dict := by
+  rw [handle_fresh a h, dget_partition k _ (nodup_handle a h.nodup)]
+
+theorem getForEq_fresh (a : Attrs) (h : WF a) (k : Str) : getForEq (fresh a) k = getForEq a k := by
+  unfold getForEq
+  rw [dget_handle_fresh a h k]
+  rfl
+
+theorem mem_keys_handle_fresh (a : Attrs) (h : WF a) (k : Str) :
+    k ∈ dkeys (handle (fresh a)).dict ↔ k ∈ dkeys (handle a).dict := by
+  rw [mem_dkeys_iff_dget, mem_dkeys_iff_dget, dget_handle_fresh a h k]
+
+end Attrs
+
 /-- what the public views show of one element, apart from identities and content: name, attribute list, flag -/
 def elView : DN → Str × List (Str × Option Str) × Bool
   | .text s => (s, [], false)
